@@ -3,6 +3,7 @@ From Coq Require Import Bool ZArith List.
 From K Require Import Lib.Types Model.Machine Model.Alu Model.Exec Spec.ISA Proofs.FlagProofs Proofs.AluProofs.
 From K Require Import Model.Bus Model.Cost Model.Addressing Proofs.RegProofs Proofs.StepProofs.
 From K Require Import Model.Cost Model.Addressing Model.Exec Proofs.MemProofs Proofs.StepProofs Proofs.CtlProofs Proofs.StepRefines.
+From K Require Import Proofs.MovProofs Proofs.StepRefinesCtl Proofs.StepRefines2.
 Open Scope Z_scope.
 
 (* ADD / SUB / CMP / ADDX: for every width 8, 16, 32 (ADDX: 8), all operands and every CCR value the
@@ -96,6 +97,47 @@ Theorem step_unary_register :
     exists s', sem_ref (IAlu1 o z rd) 2 s = Some s' /\ step s = Ok n (set_opc (pc s) s').
 Proof. exact step_alu1_proof. Qed.
 
+(* ADD ADDX CMP AND OR XOR #xx:8,Rd *)
+Theorem step_arith_logic_immediate_byte :
+  forall s w w1 w2 w3 w4 o imm rd n,
+    cpu_ok s -> bus_bytes_ok s -> fault s = false -> pc s mod 2 = 0 -> 0 <= pc s -> pc s + 2 < 4294967296 ->
+    mem_read SW s (pc s) = Some w ->
+    decode_ref w w1 w2 w3 w4 = Some (IAlu2I o SB imm rd, 2) ->
+    cs KI 1 (post_fetch s) = Ok n (post_fetch s) ->
+    exists s', sem_ref (IAlu2I o SB imm rd) 2 s = Some s' /\ step s = Ok n (set_opc (pc s) s').
+Proof. exact step_alu2_imm_b_proof. Qed.
+
+(* ADDS / SUBS #1/2/4,ERd: no flag changes, full 32-bit register *)
+Theorem step_adds_subs :
+  forall s w w1 w2 w3 w4 (sub : bool) k rd n,
+    bus_bytes_ok s -> fault s = false -> pc s mod 2 = 0 -> 0 <= pc s -> pc s + 2 < 4294967296 ->
+    mem_read SW s (pc s) = Some w ->
+    decode_ref w w1 w2 w3 w4 = Some ((if sub then ISubs k rd else IAdds k rd), 2) ->
+    cs KI 1 (post_fetch s) = Ok n (post_fetch s) ->
+    exists s', sem_ref (if sub then ISubs k rd else IAdds k rd) 2 s = Some s' /\ step s = Ok n (set_opc (pc s) s').
+Proof. exact step_adds_subs_proof. Qed.
+
+(* MULXU.B / MULXU.W *)
+Theorem step_mulxu :
+  forall s w w1 w2 w3 w4 z rs rd n,
+    cpu_ok s -> bus_bytes_ok s -> fault s = false -> pc s mod 2 = 0 -> 0 <= pc s -> pc s + 2 < 4294967296 ->
+    mem_read SW s (pc s) = Some w ->
+    decode_ref w w1 w2 w3 w4 = Some (IMulxu z rs rd, 2) -> z <> SL ->
+    mul_suffix z (post_fetch s) = Ok n (post_fetch s) ->
+    exists s', sem_ref (IMulxu z rs rd) 2 s = Some s' /\ step s = Ok n (set_opc (pc s) s').
+Proof. exact step_mulxu_proof. Qed.
+
+(* DIVXU.B with non-zero divisor and fitting quotient *)
+Theorem step_divxu_byte :
+  forall s w w1 w2 w3 w4 rs rd n s',
+    cpu_ok s -> bus_bytes_ok s -> fault s = false -> pc s mod 2 = 0 -> 0 <= pc s -> pc s + 2 < 4294967296 ->
+    mem_read SW s (pc s) = Some w ->
+    decode_ref w w1 w2 w3 w4 = Some (IDivxu SB rs rd, 2) ->
+    sem_ref (IDivxu SB rs rd) 2 s = Some s' ->
+    mul_suffix SB (post_fetch s) = Ok n (post_fetch s) ->
+    step s = Ok n (set_opc (pc s) s').
+Proof. exact step_divxu_b_proof. Qed.
+
 Print Assumptions arith2_kernel.
 Print Assumptions arith1_kernel.
 Print Assumptions divxu_kernel.
@@ -104,3 +146,7 @@ Print Assumptions arith_rr_refines.
 Print Assumptions arith_unary_refines.
 Print Assumptions step_arith_logic_register.
 Print Assumptions step_unary_register.
+Print Assumptions step_arith_logic_immediate_byte.
+Print Assumptions step_adds_subs.
+Print Assumptions step_mulxu.
+Print Assumptions step_divxu_byte.
